@@ -52,12 +52,8 @@ def run(ctx):
     ctx.require_coverage(r, ACTIONS, "MC_TxAssembly")
     cases = ctx.read_emitted(g, "cases.ndjson")
     want = ctx.pick(38187, 0)
-    import re
-    m = re.search(r"Finished computing initial states: (\d+) distinct", r.out)
-    init = int(m.group(1)) if m else 0
-    # the model checker's initial states are exactly the generated cases
-    if (want and len(cases) != want) or len(cases) < 30000 or (init and init != len(cases)):
-        ctx.broken("expected %s generated cases, got %d (model checker: %d initial states)" % (want or ">= 30000", len(cases), init))
+    if (want and len(cases) != want) or len(cases) < ctx.pick(30000, 300000):
+        ctx.broken("expected %s generated cases, got %d" % (want or ">= 300000", len(cases)))
     import random
     random.Random(ctx.seed).shuffle(cases)      # which cases get signed depends on the seed
     go = ctx.gotest("pkg/tbtc", "^TestVerif_C26_", ["c26_test.go"], inputs={"cases.ndjson": cases},
